@@ -256,6 +256,9 @@ Fixpoint msafe (m : bool) (KF KX : list nat) (b : bform) : bool :=
 Inductive bexp :=
  | EObj (b : bform)                 (* a leaf object: Form, Matrix, Cofunction, Coefficient, ... *)
  | EAdd (a b : bexp) | ESub (a b : bexp) | ENeg (a : bexp) | EMul (w : Z) (a : bexp)
+ (* a literal zero (0, 0.0, ufl Zero) as the other operand: a + 0, 0 + a (sum([...])), a - 0, and the
+    reflected subtraction 0 - a = BaseForm.__rsub__ *)
+ | EAddZero (a : bexp) | ESubZero (a : bexp) | ERSubZero (a : bexp)
  | EFormSum1 (a : bexp) (w : Z)
  | EFormSum2 (a : bexp) (wa : Z) (b : bexp) (wb : Z)
  | EFormSum3 (a : bexp) (wa : Z) (b : bexp) (wb : Z) (c : bexp) (wc : Z)
@@ -268,6 +271,8 @@ Fixpoint build (m : bool) (e : bexp) : bform :=
   | EAdd a b => mk_add (build m a) (build m b)
   | ESub a b => mk_sub (build m a) (build m b)
   | ENeg a => mk_neg (build m a)
+  | EAddZero a | ESubZero a => build m a
+  | ERSubZero a => mk_neg (build m a)       (* other + (-self) with other = 0 *)
   | EMul w a => mk_rmul w (build m a)
   | EFormSum1 a w => mk_formsum [(build m a, w)]
   | EFormSum2 a wa b wb => mk_formsum [(build m a, wa); (build m b, wb)]
@@ -571,6 +576,8 @@ Fixpoint denote (e : bexp) : T :=
   | EAdd a b => tadd (denote a) (denote b)
   | ESub a b => tadd (denote a) (tscale (-1) (denote b))
   | ENeg a => tscale (-1) (denote a)
+  | EAddZero a | ESubZero a => denote a
+  | ERSubZero a => tscale (-1) (denote a)
   | EMul w a => tscale w (denote a)
   | EFormSum1 a w => tscale w (denote a)
   | EFormSum2 a wa b wb => tadd (tscale wa (denote a)) (tscale wb (denote b))
@@ -584,7 +591,7 @@ Fixpoint safe (m : bool) (e : bexp) : bool :=
   match e with
   | EObj b => true
   | EAdd a b | ESub a b => safe m a && safe m b
-  | ENeg a | EMul _ a | EFormSum1 a _ => safe m a
+  | ENeg a | EMul _ a | EFormSum1 a _ | EAddZero a | ESubZero a | ERSubZero a => safe m a
   | EAdjoint a => safe m a && negb (cyc (build m a))
   | EFormSum2 a _ b _ => safe m a && safe m b
   | EFormSum3 a _ b _ c _ => safe m a && safe m b && safe m c
@@ -607,6 +614,9 @@ Proof.
   - unfold mk_sub. rewrite C28_add_sound, C28_neg_sound, IHe1, IHe2; auto.
   - rewrite C28_neg_sound, IHe; auto.
   - rewrite C28_rmul_sound, IHe; auto.
+  - auto.
+  - auto.
+  - rewrite C28_neg_sound, IHe; auto.
   - rewrite C28_formsum_sound. simpl. rewrite A3r, IHe; auto.
   - rewrite C28_formsum_sound. simpl. rewrite A3r, IHe1, IHe2; auto.
   - rewrite C28_formsum_sound. simpl. rewrite A3r, IHe1, IHe2, IHe3; auto.
